@@ -315,7 +315,15 @@ def blob_layer_task(layering):
             tid1 = base.tpc_finish(t)
             snap = {k: v for k, v in iolog.snapshot(
                 os.path.join(d, 'bb')).items() if v is not None}
-            st = DS(base=base)
+            if layering == 'explicit-M':
+                # changes storages given by the caller that cannot hold
+                # blobs: the blobs of the base are still there to be read
+                st = DS(base=base, changes=env.mod(
+                    'ZODB.MappingStorage').MappingStorage('c'))
+            elif layering == 'explicit-F':
+                st = DS(base=base, changes=FS(os.path.join(d, 'C.fs')))
+            else:
+                st = DS(base=base)
             if layering == 'push':
                 st = st.push()
             cur = {1: (tid1, b'base-bytes')}
@@ -338,6 +346,14 @@ def blob_layer_task(layering):
                 if op in ('open', 'load'):
                     for oid in sorted(cur):
                         read(op, oid)
+                elif layering.startswith('explicit'):
+                    # (a plain object instead of a blob)
+                    t = world.TMD()
+                    st.tpc_begin(t)
+                    st.store(p64(7 + i), Z64, hclasses.mkrec('P', 10 + i),
+                             '', t)
+                    st.tpc_vote(t)
+                    st.tpc_finish(t)
                 else:
                     oid = 2 + i if op == 'store-new' else 1
                     data = b'demo-%d-%d' % (oid, i)
@@ -413,7 +429,8 @@ def run(rep, tier, seed, workers):
     from mc import par
     before = rep.cov.get('states', 0)
     par.run_tasks([(MOD, 'blob_layer_task', (lay,))
-                   for lay in ('implicit', 'push')], workers, rep, seed)
+                   for lay in ('implicit', 'push', 'explicit-M',
+                               'explicit-F')], workers, rep, seed)
     rep.bounds['blob operations on a fresh layer over a blob-capable '
                'base'] = 2
     rep.cov['states'] = max(states, 1) + rep.cov.get('states', 0) - before
